@@ -103,6 +103,10 @@ def main():
     failures = []
     known = hint.get('known', [])
     todo = [(f['form'], tuple(X.kind_from_json(k) for k in f['kinds']), f['named']) for f in failing]
+    # a few shapes far beyond the enumeration bound (indices with two and three digits)
+    todo += [('add', ((12, 11), (12, 11)), False), ('mul', ((11, 12), (11, 12)), False), ('dot', ((12, 11), (11, 12)), False),
+             ('dot', ((12, 11), (11,)), False), ('sub', ((101,), (101,)), False), ('div', ((13, 12), 'S'), False),
+             ('sub', ((12, 11), (12, 11)), True), ('dot', ((11,), (11, 12)), False)]
     # numeric cross-check of a random sample of the whole enumeration (bound 4)
     thorough = hint.get('tier') == 'thorough'
     shp = X.shapes(6 if thorough else 4)
